@@ -63,6 +63,8 @@ class DefaultTrackerHandler(ResultHandler):
         self._constraint_tolerance = constraint_tolerance
         self._sources = set() if sources is None else sources
         self["results"] = None
+        # The tracked best result, together with its transformed version:
+        self._optimal: tuple[FunctionResults, FunctionResults] | None = None
 
     def handle_event(self, event: Event) -> None:
         """Handle an event.
@@ -80,12 +82,21 @@ class DefaultTrackerHandler(ResultHandler):
             filtered_results: FunctionResults | None = None
             match self._what:
                 case "best":
-                    filtered_results = _update_optimal_result(
-                        self["results"],
+                    # The stored result may have been reset or replaced:
+                    stored = self["results"]
+                    if stored is None:
+                        self._optimal = None
+                    elif self._optimal is None or self._optimal[0] is not stored:
+                        self._optimal = (stored, stored)
+                    optimal = _update_optimal_result(
+                        self._optimal,
                         results,
                         transformed_results,
                         self._constraint_tolerance,
                     )
+                    if optimal is not None:
+                        self._optimal = optimal
+                        filtered_results = optimal[0]
                 case "last":
                     filtered_results = _get_last_result(
                         results,
